@@ -5399,6 +5399,8 @@ class Arc(Curve):
 
         large_arc_flag = bool(large_arc_flag)
         sweep_flag = bool(sweep_flag)
+        rx = abs(rx)  # F.6.6.1: negative radii act as their absolute values
+        ry = abs(ry)
         start = Point(start)
         self.start = start
         end = Point(end)
